@@ -387,7 +387,7 @@ class Gen:
 
     def function(self, sc):
         self.fn_count += 1
-        kind = self.r.randrange(21)
+        kind = self.r.randrange(23)
         name = f"f{self.fn_count}"
         deco = ""
         if self.chance(self.o["decorators"]):
@@ -475,6 +475,28 @@ class Gen:
                 call = f"{name}({arg()}, {arg()})" if two else f"{name}({arg()})"
                 out.append(self.pick([f"println({call})", f"let {name}r = {call}\nprintln({name}r)", f"println({call} + {call})"]))
             out.append(f"println({name}c)")
+        elif kind == 22:        # two closures of one frame share a mutable local, captured high / low / high; used after the frame returned
+            self.features.add("shared-upvalue-capture-order")
+            decls = [("lo", self.r.randrange(1, 9)), ("v", self.r.randrange(10, 19))]
+            if self.chance(0.5):
+                decls.reverse()
+            d = "\n".join(f"    let mut {n} = {val}" for n, val in decls)
+            caps = self.pick([("v", "lo", "v"), ("lo", "v", "lo"), ("v", "v", "lo")])
+            body = [f"    let c1 = fn() {{ {caps[0]} = {caps[0]} + 100; return {caps[0]} }}",
+                    f"    let c2 = fn() {{ return {caps[1]} * 2 }}",
+                    f"    let c3 = fn() {{ return {caps[2]} }}"]
+            out.append(f"let mut {name}1 = null\nlet mut {name}2 = null\nlet mut {name}3 = null")
+            out.append(f"fn {name}mk() {{\n{d}\n" + "\n".join(body) + f"\n    {name}1 = c1\n    {name}2 = c2\n    {name}3 = c3\n    return 0\n}}")
+            out.append(f"{name}mk()")
+            for _ in range(self.r.randrange(3, 6)):
+                out.append(self.pick([f"println({name}1())", f"println({name}2())", f"println({name}3())", f"println({name}3() + {name}1())"]))
+        elif kind == 21:        # manual memory with offsets that become literals only through optimisation (outside the evaluator's fragment: levels are compared with each other)
+            self.features.add("manual-memory-const-offsets")
+            size = self.pick([256, 257, 300, 512, 255])
+            off = self.pick([255, 256, 257, 0, 1, 128])
+            form = self.pick([f"let off = {off}", f"let off = {off - 1} + 1", f"let k = {off // 2}\n    let off = k + {off - off // 2}"])
+            out.append(f"fn {name}() {{\n    let p = alloc({size})\n    store(p, 0, 11)\n    {form}\n    store(p, off, 22)\n    let a = load(p, 0)\n    let b = load(p, off)\n    free(p)\n    return a * 100 + b\n}}")
+            out.append(f"println({name}())")
         elif kind == 20:        # a closure escapes the block whose FIRST local it captured (mutable), the block ends normally
             self.features.add("closure-escapes-block-first-local")
             n = self.r.randrange(2, 4)
